@@ -444,6 +444,20 @@ func VerifC01Mux() {
 			symx.Assert(a.process(blkB), "a valid proposal was rejected by a node that had prepared another one")
 			decided = blkB
 			symx.Cover("second-round")
+			// cfg rounds=3: round 1 may fail as well; A then proposes a third block (its third proposal of the height:
+			// one prepared, one processed, one prepared) and every node has executed two undecided proposals before it
+			if symx.Cfg("rounds", 2) >= 3 && symx.Bool(symx.N("thirdRound", int(h))) {
+				txsC := [][]byte{vC01Tx(user, symx.N("txC", int(h)), byte(16*h+3), nonce)}
+				if withStaking {
+					txsC = append(txsC, vC01StakingTx(user, symx.N("xferC", int(h)), nonce+1))
+				}
+				blkC := a.propose(h, 3, txsC, votes)
+				symx.Assert(a.process(blkC), "proposer rejected its own proposal")
+				symx.Assert(v.process(blkC), "a valid proposal was rejected by a validator that executed two other proposals before")
+				symx.Assert(b.process(blkC), "a valid proposal was rejected by a node that had prepared another one")
+				decided = blkC
+				symx.Cover("third-round")
+			}
 		} else {
 			symx.Assert(a.process(blkA), "proposer rejected its own proposal")
 			if symx.Bool(symx.N("otherProcesses", int(h))) {
